@@ -30,14 +30,16 @@ EXTENDS Concertina, TLC, TLCExt
 
 VARIABLE j                  \* index of the next event of trace ci
 
-tvars == <<ci, runs, finished, raised, j>>
+tvars == <<ci, cfg, runs, finished, raised, j>>
 
 N    == Len(Lines)
 Ev   == Lines[ci].ev
-Zero(k) == IF k <= N THEN [a \in 1..ConfigSeq[k].n |-> 0] ELSE <<>>
+Zero(c) == [a \in 1..c.n |-> 0]
+NoCfg == [n |-> 0]
 
 TInit == /\ ci = 1 /\ j = 1
-         /\ runs = Zero(1) /\ finished = {} /\ raised = {}
+         /\ cfg = IF N >= 1 THEN ConfigOf(1) ELSE NoCfg
+         /\ runs = Zero(cfg) /\ finished = {} /\ raised = {}
          /\ TLCSet(1, 0) /\ TLCSet(2, 0)
          /\ \A r \in 3..7 : TLCSet(r, 0)
 
@@ -49,7 +51,8 @@ Verdict(ok, clause, a, shape, missing) ==
   /\ IF ok THEN TRUE ELSE TLCSet(1, TLCGet(1) + 1)
 
 NextTrace == /\ ci' = ci + 1 /\ j' = 1
-             /\ runs' = Zero(ci + 1) /\ finished' = {} /\ raised' = {}
+             /\ cfg' = IF ci + 1 <= N THEN ConfigOf(ci + 1) ELSE NoCfg
+             /\ runs' = Zero(cfg') /\ finished' = {} /\ raised' = {}
 
 (* Which clause of the enabling condition of Run(a) fails. *)
 RunClause(a) ==
